@@ -1163,7 +1163,7 @@ func floatFtoF(x Float) Float {
 
 func floorFtoI(x Float) (Integer, error) {
 	f := math.Floor(float64(x))
-	if f > float64(maxInt) || f < float64(minInt) {
+	if f >= float64(maxInt) || f < float64(minInt) {
 		return 0, exceptionalValueIntOverflow
 	}
 	return Integer(f), nil
@@ -1171,7 +1171,7 @@ func floorFtoI(x Float) (Integer, error) {
 
 func truncateFtoI(x Float) (Integer, error) {
 	t := math.Trunc(float64(x))
-	if t > float64(maxInt) || t < float64(minInt) {
+	if t >= float64(maxInt) || t < float64(minInt) {
 		return 0, exceptionalValueIntOverflow
 	}
 	return Integer(t), nil
@@ -1179,7 +1179,7 @@ func truncateFtoI(x Float) (Integer, error) {
 
 func roundFtoI(x Float) (Integer, error) {
 	r := math.Round(float64(x))
-	if r > float64(maxInt) || r < float64(minInt) {
+	if r >= float64(maxInt) || r < float64(minInt) {
 		return 0, exceptionalValueIntOverflow
 	}
 	return Integer(r), nil
@@ -1187,7 +1187,7 @@ func roundFtoI(x Float) (Integer, error) {
 
 func ceilingFtoI(x Float) (Integer, error) {
 	c := math.Ceil(float64(x))
-	if c > float64(maxInt) || c < float64(minInt) {
+	if c >= float64(maxInt) || c < float64(minInt) {
 		return 0, exceptionalValueIntOverflow
 	}
 	return Integer(c), nil
